@@ -100,7 +100,20 @@ func c06Run(cfg vsched.Config, cs c06Case) (*c06Obs, *vsched.Sched) {
 		resumed := false
 		nIn, nOut := 0, 0
 		switch cs.Mode {
-		case "req-hook", "req-both":
+		case "req-hook", "req-both", "req-hook-while-resp-paused":
+			if cs.Mode == "req-hook-while-resp-paused" {
+				// the responder has paused itself one block further on by the time the requestor pauses: the
+				// requestor's cancel reaches a paused response, and the re-issued request starts a fresh one
+				rOnce := false
+				nR := 0
+				r.GS.RegisterOutgoingBlockHook(func(p peer.ID, rd graphsync.RequestData, b graphsync.BlockData, ha graphsync.OutgoingBlockHookActions) {
+					nR++
+					if nR == cs.At+1 && !rOnce {
+						rOnce = true
+						ha.PauseResponse()
+					}
+				})
+			}
 			q.GS.RegisterIncomingBlockHook(func(p peer.ID, rd graphsync.ResponseData, b graphsync.BlockData, ha graphsync.IncomingBlockHookActions) {
 				nIn++
 				if nIn == cs.At && !hookPaused {
@@ -242,6 +255,20 @@ func c06Run(cfg vsched.Config, cs c06Case) (*c06Obs, *vsched.Sched) {
 				resumed = true
 			},
 		})
+		if cs.Mode == "req-hook-while-resp-paused" {
+			// natural ending: a response that is (still, or again) paused once the requestor has been resumed is resumed too
+			evs = append(evs, &harness.Event{
+				Name: "r-unpause",
+				Enabled: func() bool {
+					if !resumed && hookPaused {
+						return false
+					}
+					st, ok := r.GS.(*gsimpl.GraphSync).PeerState(q.ID).IncomingState.RequestStates[id]
+					return ok && st == graphsync.Paused && !res.Closed()
+				},
+				Do: func() { _ = r.GS.Unpause(context.Background(), id) },
+			})
+		}
 		o.trace = harness.RunEvents(evs, 200)
 		o.paused = hookPaused || apiPaused
 		o.visits = harness.VisitsString(res.Visits)
@@ -401,7 +428,7 @@ func c06Cases(thorough bool) []c06Case {
 		}
 		for _, sn := range sels {
 			for _, sp := range splits {
-				for _, mode := range []string{"req-hook", "resp-hook", "resp-hook-held", "resp-reqhook", "req-api", "resp-api", "resp-api-held", "req-both"} {
+				for _, mode := range []string{"req-hook", "resp-hook", "resp-hook-held", "resp-reqhook", "req-api", "resp-api", "resp-api-held", "req-both", "req-hook-while-resp-paused"} {
 					lo, hi := 1, n
 					if mode == "resp-reqhook" {
 						lo, hi = 1, 1
@@ -415,7 +442,7 @@ func c06Cases(thorough bool) []c06Case {
 					if !thorough && strings.HasSuffix(mode, "-api") {
 						hi = 2
 					}
-					if !thorough && mode == "req-both" {
+					if !thorough && (mode == "req-both" || mode == "req-hook-while-resp-paused") {
 						hi = min(n, 2)
 					}
 					if strings.HasSuffix(mode, "-api") {
@@ -467,7 +494,7 @@ func runC06(c *core.Ctx) {
 
 func init() {
 	core.Register(&core.Prop{ID: "C06", Level: "model_checking",
-		Rule:        "shapes (N<=3 + a 4-chain; thorough N<=4 catalogue) x splits (responder holds the root, requestor lacks something, responder lacks <=1 block in quick) x selectors x pause by {requestor block hook, responder block hook at block 1..N (also with the responder's first send stalled across the pause and the resume), responder request hook, requestor API, requestor block hook and API for the same block, responder API after 0..4 deliveries, responder API while a send from index k on is stalled under a one-block allowance (the pause lands on whatever link comes next, present or missing)}; network gated: after every event (deliver next message on a link, pause call, unpause call) the two real instances run to quiescence; every order of events within the deviation bound from the natural order (deliver everything, resume last) is executed; a class is (pause kind, pause happened, number of events)",
+		Rule:        "shapes (N<=3 + a 4-chain; thorough N<=4 catalogue) x splits (responder holds the root, requestor lacks something, responder lacks <=1 block in quick) x selectors x pause by {requestor block hook, responder block hook at block 1..N (also with the responder's first send stalled across the pause and the resume), responder request hook, requestor API, requestor block hook and API for the same block, requestor block hook at block j while the responder has paused itself at block j+1 (both sides paused at once), responder API after 0..4 deliveries, responder API while a send from index k on is stalled under a one-block allowance (the pause lands on whatever link comes next, present or missing)}; network gated: after every event (deliver next message on a link, pause call, unpause call) the two real instances run to quiescence; every order of events within the deviation bound from the natural order (deliver everything, resume last) is executed; a class is (pause kind, pause happened, number of events)",
 		Assumptions: []string{"differential oracle: the same configuration run uninterrupted (C02 ties that to the reference traversal)", "event-level interleavings (message granularity); schedules inside one event are the default", "an unpause that is refused because the pause has not taken effect yet is retried"},
 		Run:         runC06, QuickBudget: 300, ThoroughBudget: 2400,
 		Replay: func(raw json.RawMessage) string {
